@@ -1597,13 +1597,14 @@ fn family_cli(thorough: bool) -> Family {
     let description = format!(
         "real jj binary on a Git-backend workspace: c0 creates f, g, d/h (3 lines each); c1 one of {} edits; the source c2 one \
          of {} multi-path edits; above the source one of [{}]; the last commit is the working-copy commit (its edits either \
-         committed or only on disk, so that the command snapshots them); operations: jj split -r c2 -m selected (under both values of split.legacy-bookmark-behavior) with {} \
+         committed or only on disk, so that the command snapshots them{}); operations: jj split -r c2 -m selected (under both values of split.legacy-bookmark-behavior) with {} \
          of the paths {{f, g, d/h, k}} the source touches, plus an untouched path, jj squash -r c2 -u, \
          jj absorb --from c2 with --into unset / c0 / c1{}, and the same three operations on the working-copy commit \
          (through the commands' default revision @)",
         middles.len(),
         sources.len(),
         aboves.iter().map(|a| a.name).collect::<Vec<_>>().join(", "),
+        if thorough { "" } else { "; the on-disk variant only where the source is the working-copy commit" },
         if thorough { "every non-empty subset" } else { "every single path and the set of all" },
         if thorough { " / c0+c1" } else { "" },
     );
@@ -1633,6 +1634,9 @@ fn family_cli(thorough: bool) -> Family {
             commits[wc].nodesc = true;
             if dirty && commits[wc].edits.is_empty() {
                 return vec![]; // nothing to leave on disk: same as the clean variant
+            }
+            if dirty && !thorough && wc != 2 {
+                return vec![]; // quick: the dirty variant only where the source is the working copy
             }
             let mut ops: Vec<OpSpec> = vec![];
             let mut touched: Vec<String> = vec![];
